@@ -183,6 +183,24 @@ def gen_cases(ck):
                         cases.append(('enum-stdout', '%s/%s %s | %s' % (mode, out, prog, sch)))
                         cnt += 1
                     enum_desc.append('%s/%s/%s/k=%d/%s:%d' % (prog.replace(' ', ''), mode, out, k, kinds.__name__, cnt))
+    # environment dimension "inherited disposition": the process starts with SIGINT/SIGTERM ignored.  Only schedules
+    # whose signals all arrive after the first constructor has completed (before that the inherited disposition
+    # decides, which is outside the property and outside the model).
+    for pi in (1, 2):
+        prog = FAMILY[pi]
+        n = nsteps(prog)
+        for mode, out in (('bsd', 'file'), ('sysv', 'file'), ('bsd', 'closed')):
+            for k in (1, 2, 3):
+                kinds = all_kinds if k <= 2 else (all_kinds if thorough else alternating)
+                if k == 3 and not thorough and (mode, out) != ('bsd', 'file'):
+                    continue
+                cnt = 0
+                for sch in schedules(n, k, kinds):
+                    if int(sch.split(':')[0]) < NSTEPS['C']:
+                        continue
+                    cases.append(('enum-inherited-ign', '%s/%s/ign %s | %s' % (mode, out, prog, sch)))
+                    cnt += 1
+                enum_desc.append('%s/%s/%s/ign/k=%d/%s:%d' % (prog.replace(' ', ''), mode, out, k, kinds.__name__, cnt))
     for prog in EXTRA_PROGRAMS:
         n = nsteps(prog)
         for mode in ('bsd', 'sysv'):
@@ -472,6 +490,9 @@ def run_impl(exe, lines, shards):
 
 
 def run_model(drv, lines, layout='pinned'):
+    # the model does not have the inherited disposition (it only matters before the handler is installed, and the
+    # generator never schedules a signal there for /ign cases): the model is asked about the same case without it
+    lines = [l.replace('/ign ', ' ', 1) if l.split(' ', 1)[0].endswith('/ign') else l for l in lines]
     p = subprocess.run([drv, layout], input='\n'.join(lines) + '\n', capture_output=True, text=True)
     if p.returncode != 0:
         raise RuntimeError('model driver failed: %s' % p.stderr[-800:])
@@ -531,7 +552,7 @@ def run(ck):
     cases, enum_desc = gen_cases(ck)
     lines = [l for _, l in cases]
     ck.log('%d cases (%s)' % (len(lines), ', '.join('%s=%d' % (o, sum(1 for x, _ in cases if x == o))
-                                                        for o in ['corpus', 'counterexample', 'enum', 'enum-stdout', 'enum-extra', 'random', 'malformed'])))
+                                                        for o in ['corpus', 'counterexample', 'enum', 'enum-stdout', 'enum-inherited-ign', 'enum-extra', 'random', 'malformed'])))
     impl = run_impl(exe, lines, 8 if ck.tier == 'thorough' else 6)
     ck.log('implementation runs done')
     model = run_model(drv, lines, layout)
@@ -549,6 +570,10 @@ def run(ck):
             if il != 'bad-op' or ml != 'bad-op':
                 corr_bad.append((case, il, ml, 'malformed input must be rejected by both sides'))
             continue
+        if case.split(' ', 1)[0].endswith('/ign'):
+            # the state flags show 2 for an ignored signal; the model only tracks "HandleSigInt installed or not"
+            il = il.replace(',I2,', ',I0,').replace(',T2]', ',T0]')
+            hist['inherited_ignored'] = hist.get('inherited_ignored', 0) + 1
         if out_state(case) == 'null':      # /dev/null: the break text cannot be observed; not compared
             il, ml = BRK_RE.sub('brk=~', il), BRK_RE.sub('brk=~', ml)
         if il != ml:
@@ -637,6 +662,7 @@ def run(ck):
         'a store to std::atomic<T> / volatile sig_atomic_t is one indivisible program step; delivery inside a store or inside write(2) is not modelled',
         'write(2) to fd 1 either succeeds completely or fails (both modelled and exercised: fd 1 = memfd, pipe, /dev/null, closed, /dev/full, read-only); partial writes are not modelled; the callback itself returns (its return value is ignored by HandleSigInt)',
         'signal(2) semantics: both the glibc/BSD one and the SysV reset-on-entry one are modelled and exercised (through an interposed ::signal in the harness)',
+        'inherited dispositions: default action is modelled; inherited SIG_IGN is exercised on the real code only for schedules whose signals arrive after the constructor (where the property says it must not matter) and compared with the same model',
         'Windows signal repeater thread (SW_sigpipe) out of scope',
     ]
     ck.cov['trusted_base'] += [
